@@ -164,6 +164,15 @@ func (s *sim) absTrigger(d delivery) string {
 		case h == s.vv.Height && r > s.vv.Round+1:
 			return "C09-A2"
 		case h == s.vv.Height+1:
+			if pcp := ph.Header.PrevCommitProof; pcp.Round == s.vv.Round+1 && pcp.PubKeyHash == string(s.vv.ValidatorSet.PubKeyHash) {
+				set := s.setFor(s.vv.Height)
+				for hash, sigs := range pcp.Proofs {
+					ok, _ := validSigners(set, precommitBytes(s.vv.Height, pcp.Round, hash), sigs)
+					if atLeastOneThird(powerOf(set, ok), set.total()) {
+						return "C09-A5"
+					}
+				}
+			}
 			if !s.inVotingView(string(ph.Header.PrevBlockHash)) || ph.Header.PrevCommitProof.Round != s.vv.Round {
 				return "C09-A4"
 			}
